@@ -1,6 +1,6 @@
 (* Corr/C16.v — merge(): outputs of the implementation (twice over the same objects) against the
    model; children_bp against the model and against the union size. *)
-From GV Require Export Corr.Import Model.Merge Gen.GenLib Gen.GenCriteria.
+From GV Require Export Corr.Import Model.Order Model.Merge Gen.GenLib Gen.GenCriteria.
 Open Scope Z_scope.
 
 (* an output as observed: kind, member ids, extent/columns, frame, id, set of sources *)
@@ -12,7 +12,7 @@ Inductive case :=
 | CMerge (cs : crits) (pre : list (list minput)) (fs : list minput) (a0 : counters) (first second : result (list oobs))
          (alone_ok : bool)    (* every object yielded by the second call, merged again ALONE, comes back as itself without children *)
 | CBp (cs : crits) (kids : list minput) (plain merged : result Z)
-| CMergeAll (exclude : bool) (before : tables) (mem : counters) (after : result tables).
+| CMergeAll (exclude : bool) (order : list okey) (cs : crits) (before : tables) (mem : counters) (after : result tables).
 
 Definition In_ (id seqid strand ftype : str) (s e : Z) (source frame : str) : minput :=
   mkIn id {| m_seqid := seqid; m_strand := strand; m_ftype := ftype; m_start := s; m_end := e |} source frame.
@@ -108,10 +108,10 @@ Definition verdict (c : case) : Z :=
         else (* F19: start-ordered but class-interleaved children: the single pass does not join across classes *)
              (if union_ok && sum_ok then V_FIXED else if tie && sum_ok then V_KNOWN 19 else V_BAD)
       else V_OUT
-  | CMergeAll exclude before mem after =>
+  | CMergeAll exclude order cs before mem after =>
       let st := mkSt (t_rows before) (t_rels before) (t_dups before) (t_auto before) in
       if forallb (fun r => match minput_of_row r with Some i => input_ok i | None => false end) (t_rows before) then
-        match merge_all exclude st mem, after with
+        match merge_all_with order cs exclude st mem, after with
         | Ok (st', _), Ok t => if st_matches_set st' t then V_OK else V_BAD
         | Err e, Err e' => if err_eqb e e' then V_OK else V_BAD
         | _, _ => V_BAD
